@@ -14,6 +14,10 @@ CONTENT = {
     "clean": b"# a\n",
     "fixable": b"#  a\n\nb   \n",            # level 0 (MD009) and level 1 (MD019): two passes
     "trig2": b"# a\n#  b\n",                # MD019 on line 2 (where a leaked pragma of another file would bite)
+    # documents that walk many rules through their states (runs of blank lines, lists, fences, quotes, repeated headings); the second
+    # one starts where a rule left half-way through the first would notice (blank lines first, then list items and headings)
+    "stateful": b"# a\n\n\n- x\n\n```\ncode\n```\n\n\n> q\n\n## a\n",
+    "stateful2": b"\n\n- y\n* z\n\n## a\n\n## a\ntext\n",
     "perr": b"# a\n\nPLUGINFAIL\n",
     "terr": b"---\ntest: assert\n---\n",
     "decode": b"\xff\xfe# a\n",
@@ -83,7 +87,7 @@ def run(ctx):
     # failures per kind (scan, alone) for the model
     nfail = {}
     alone = {}
-    for k in kinds + ["decode"]:
+    for k in kinds + ["decode", "stateful", "stateful2"]:
         for mode in ("scan", "fix"):
             alone[(k, mode)] = _run(([("f1.md", k)], mode, True, ENV_CONTENT))
         nfail[k] = len(alone[(k, "scan")][5]["f1.md"])
@@ -114,6 +118,14 @@ def run(ctx):
                 for coe in (False, True):
                     pos_cases.append((base3, mode, coe, fenv, pos))
                     refs.append(([p for i, p in enumerate(base3, 1) if i != pos], mode, coe, ENV_CONTENT))
+    # ... the same with documents that leave rules half-way through their states at the point of the fault
+    base3b = [("f1.md", "stateful"), ("f2.md", "stateful2"), ("f3.md", "stateful")]
+    for pos in (1, 2):
+        for cb, nth in [("token", n) for n in range(1, 31)] + [("line", n) for n in (1, 3, 4, 6, 9)]:
+            fenv = {"PV_FAULT": json.dumps({"cb": cb, "file": f"f{pos}.md", "nth": nth}), "PV_FAULT_FIX": "1", "PV_FAULT_LEVEL": "1", "PV_FAULT_ID": "zzx999"}
+            for mode in ("scan", "fix"):
+                pos_cases.append((base3b, mode, True, fenv, pos))
+                refs.append(([p for i, p in enumerate(base3b, 1) if i != pos], mode, True, ENV_CONTENT))
     # ... and faults that strike only in a later pass of fix mode (the pass of the plug-in's own level, 1)
     for pos in (1, 2, 3):
         for cb, nth in (("token", 1), ("token", 3), ("line", 2), ("complete", 1)):
@@ -244,7 +256,7 @@ def run(ctx):
     ]
     return ctx.finish(
         level="proof",
-        rule="outcome vectors of <=3 files over {clean, fixable(2 passes), trig2, plugin error, parser error, parser crash after a pragma} (+undecodable, <=2) x scan/fix x continue-on-error, each compared with the run without the failing files; "
+        rule="callback-position faults also on two documents that walk the rules through their states (blank-line runs, lists, fences, quotes, repeated headings), 30 token and 5 line positions; outcome vectors of <=3 files over {clean, fixable(2 passes), trig2, plugin error, parser error, parser crash after a pragma} (+undecodable, <=2) x scan/fix x continue-on-error, each compared with the run without the failing files; "
              "a fault at every callback invocation (start, tokens 1-8, lines 1-4, completion) of each of 3 file positions x scan/fix x coe; process death at 9 points of the write-back for 2 documents; quick = all vectors <=2 + 70 seed-selected 3-vectors; non-trivial = every case; distinct by input",
         assumptions=["a crash cannot remove the sibling/temporary file it was writing: residue is judged only for runs that end normally or with a reported error",
                      "'completely fixed' is the content a fix of that file alone produces"],
